@@ -150,7 +150,7 @@ class Acc(object):
         sig = dict(sig)
         if CONTEXT and isinstance(case, dict):
             case = dict(case, **CONTEXT)
-            sig = dict(sig, **{k: v for k, v in CONTEXT.items() if k == 'prov'})
+            sig = dict(sig, **{k: v for k, v in CONTEXT.items() if k in ('prov', 'pprov')})
         key = canon({'clause': clause, 'sig': sig})
         hk = hashlib.blake2b(key.encode(), digest_size=6).hexdigest()
         self.viol_counts[hk] += 1
@@ -244,12 +244,14 @@ def _worker(args):
         import importlib
         mod = importlib.import_module(modname)
         CONTEXT.clear()
-        if isinstance(desc, dict) and desc.get('prov'):
-            CONTEXT['prov'] = desc['prov']
+        for ck in ('prov', 'pprov'):
+            if isinstance(desc, dict) and desc.get(ck):
+                CONTEXT[ck] = desc[ck]
         try:
             acc = mod.run_shard(desc, tier, seed)
-            if CONTEXT.get('prov'):
-                acc.seen('prov:' + CONTEXT['prov'])
+            for ck in ('prov', 'pprov'):
+                if CONTEXT.get(ck):
+                    acc.seen('%s:%s' % (ck, CONTEXT[ck]))
         finally:
             CONTEXT.clear()
         return idx, acc, None
@@ -307,9 +309,11 @@ def finish(mod, acc, tier, seed, wall, nshards):
         try:
             rc = v['case']
             CONTEXT.clear()
-            if isinstance(rc, dict) and rc.get('prov'):
-                CONTEXT['prov'] = rc['prov']
-                rc = {k: x for k, x in rc.items() if k != 'prov'}
+            if isinstance(rc, dict) and (rc.get('prov') or rc.get('pprov')):
+                for ck in ('prov', 'pprov'):
+                    if rc.get(ck):
+                        CONTEXT[ck] = rc[ck]
+                rc = {k: x for k, x in rc.items() if k not in ('prov', 'pprov')}
             try:
                 rv = mod.replay(rc)
             finally:
